@@ -1418,6 +1418,7 @@ func main() {
 	}
 
 	runIDs(g)
+	runBigFamily(g)
 }
 
 func fileOnly(ps []partSpec) []partSpec {
